@@ -154,7 +154,7 @@ Proof. split; [reflexivity|]. cbv -[Z.le]; lia. Qed.
    (no case of its switch matches), with no world operation for that stream. *)
 Theorem C13_out_of_range_start : forall parent child stream rd nb out,
   ~ type_in_range (rd_type rd) ->
-  redirect_init parent child stream rd nb out = ret (REPROC_EINVAL, parent, child).
+  redirect_init parent child stream rd nb out = ret (REPROC_EINVAL, parent, child, rd).
 Proof. exact redirect_init_out_of_range. Qed.
 Print Assumptions C13_out_of_range_start.
 Example C13_out_of_range_start_ex : ~ type_in_range (rd_type (only_type 8)).
